@@ -109,7 +109,10 @@ def gen_program(rng, tier):
         prog['catch_inside'] = True
     r = rng.random()
     if r < 0.18:
-        prog['fault'] = {'kind': 'user_exception', 'at': rng.randrange(1, 12)}
+        prog['fault'] = {'kind': 'user_exception', 'at': rng.randrange(1, 12),
+                         # the user's try/except sits around the `with <predicate>:` whose body
+                         # raised, inside the still open block; the rest of that body is skipped
+                         'caught_at_branch': red is not None and not red[1] and rng.random() < 0.5}
     elif r < 0.24:
         prog['fault'] = {'kind': 'wide_predicate', 'at': rng.randrange(1, 8),
                          'caught': rng.random() < 0.5}
@@ -156,6 +159,12 @@ def gen_case(streams, tier):
                 p['shared_defaults'] = True
                 p['mention_only'] = False
             seen_d = True
+    # a program's memory target may be the memory the previous program of the block wrote
+    for i in range(1, len(progs)):
+        if any(t['kind'] == 'mem' for t in progs[i]['targets']) and \
+                any(t['kind'] == 'mem' for t in progs[i - 1]['targets']) and g.random() < 0.5:
+            progs[i]['reuse_mem'] = True
+            progs[i]['block'] = 'same'
     # a later plain program may pick up the wire an earlier one only mentioned in defaults
     for i, p in enumerate(progs):
         p['adopt_mentioned'] = g.random() < 0.7
@@ -243,6 +252,38 @@ def reduce_conflicts(tree):
     return None
 
 
+def truncate_at(tree, at):
+    """The tree as it is elaborated when the statement with running number `at` (counted as
+    elaborate() counts: every item, in order) raises inside a branch body and the exception is
+    caught around that branch: the rest of that body is gone. None when the statement is not
+    inside any branch (nothing catches it) or is never reached."""
+    import copy
+    work = copy.deepcopy(tree)
+    n = [0]
+    found = [None]
+
+    def rec(items, inside):
+        for idx, it in enumerate(items):
+            n[0] += 1
+            if n[0] == at and found[0] is None:
+                if not inside:
+                    found[0] = 'top'
+                    return True
+                found[0] = 'cut'
+                del items[idx:]
+                return True
+            if 'assign' not in it:
+                if rec(it['body'], True):
+                    if found[0] == 'top':
+                        return True
+                    # caught around this branch: the siblings that follow are elaborated,
+                    # and nothing counts towards `at` any more
+                    n[0] = -(10 ** 9)
+        return False
+    rec(work, False)
+    return work if found[0] == 'cut' else None
+
+
 def active_assignments(tree, pv):
     out = []
 
@@ -300,8 +341,15 @@ def make_targets(prog, pi, ctx, res, adopt=True):
         elif t['kind'] == 'reg':
             live.append(pyrtl.Register(8, name))
         else:
-            live.append(pyrtl.MemBlock(8, 2, name=name, max_write_ports=None,
-                                       asynchronous=True))
+            shared_mem = getattr(ctx, 'last_mem', None)
+            if adopt and prog.get('reuse_mem') and shared_mem is not None and \
+                    not any(m is shared_mem for m in live):
+                # one memory, a write port from each of two conditional blocks
+                live.append(shared_mem)
+                res.probes.hit('memory_written_from_two_blocks')
+            else:
+                live.append(pyrtl.MemBlock(8, 2, name=name, max_write_ports=None,
+                                           asynchronous=True))
     return live
 
 
@@ -317,6 +365,9 @@ def elaborate(prog, pi, ctx, res, share_next=None, shared=None):
     stmt = [0]
     asg_idx = [0]
     fault = prog.get('fault')
+    catch_branch = None
+    if fault and fault['kind'] == 'user_exception' and fault.get('caught_at_branch'):
+        catch_branch = truncate_at(prog['tree'], fault['at'])     # None: nothing will catch it
     rej = first_rejection(prog['tree'])
     state = {'rejected_at': None}
     with pyrtl.set_working_block(blk, no_sanity_check=True):
@@ -416,8 +467,18 @@ def elaborate(prog, pi, ctx, res, share_next=None, shared=None):
                         state['accepted_conflict'] = me
                 else:
                     c = pyrtl.otherwise if it['pred'] == 'otherwise' else ctx.preds[it['pred']]
-                    with c:
-                        emit(it['body'])
+                    if catch_branch is not None and not state.get('caught_user'):
+                        try:
+                            with c:
+                                emit(it['body'])
+                        except UserCodeError:
+                            if state.get('caught_user'):
+                                raise
+                            state['caught_user'] = True
+                            res.faults.hit('user_exception_caught_around_branch')
+                    else:
+                        with c:
+                            emit(it['body'])
 
         outcome = None
         try:
@@ -443,6 +504,10 @@ def elaborate(prog, pi, ctx, res, share_next=None, shared=None):
         if pyrtl.currently_under_condition():
             return Violation('state', 'still_under_condition_after_block',
                              {'program': pi, 'outcome': outcome}, ['after:' + str(outcome)])
+        if state.get('caught_user') and outcome == 'ok':
+            if catch_branch is None:
+                raise HarnessError('a user exception was caught where none was predicted')
+            prog = dict(prog, tree=catch_branch)
         if prog.get('catch_inside') and outcome == 'ok':
             red = reduce_conflicts(prog['tree'])
             if red is None:
@@ -496,6 +561,9 @@ def elaborate(prog, pi, ctx, res, share_next=None, shared=None):
                 o <<= live[ti]
         if extra is not None:
             ctx.mentioned.append(extra)
+        mems_here = [live[ti] for ti, t in enumerate(prog['targets']) if t['kind'] == 'mem']
+        if mems_here:
+            ctx.last_mem = mems_here[0]
     return ('ok', live, prog)
 
 
@@ -566,14 +634,24 @@ def run(case, res):
             return Violation('elaboration', 'completed_block_not_well_formed',
                              {'exc': repr(e)[:300]}, [])
         model = {}
+        memmodel = {}          # id(MemBlock) -> [contents, tainted, (pi, ti, MemBlock)]
         for pi, live, prog in ctx.programs:
+            touched = {a['assign'] for a, _l in walk_assignments(prog['tree'])}
             for ti, t in enumerate(prog['targets']):
-                model[(pi, ti)] = {} if t['kind'] == 'mem' else 0
+                if t['kind'] == 'mem':
+                    if ti in touched:
+                        memmodel.setdefault(id(live[ti]), [{}, False, (pi, ti, live[ti])])
+                        model[(pi, ti)] = memmodel[id(live[ti])][0]
+                    else:
+                        model[(pi, ti)] = {}       # never written here: not judged through this program
+                else:
+                    model[(pi, ti)] = 0
         for ci, cyc in enumerate(cycles):
             ins = {'p%d' % i: cyc['p'][i] for i in range(NPRED)}
             ins.update({'d0': cyc['d'][0], 'd1': cyc['d'][1], 'e0': cyc['e'], 'widepred': 0})
             sim.step(ins)
             res.cycles += 1
+            written = {}           # id(MemBlock) -> addresses written this cycle
             for pi, live, prog in ctx.programs:
                 act = active_assignments(prog['tree'], cyc['p'])
                 by_t = {}
@@ -621,13 +699,22 @@ def run(case, res):
                         if alist:
                             a = alist[0]
                             if a['en'] is None or cyc['e']:
+                                w_ = written.setdefault(id(live[ti]), set())
+                                if a['addr'] in w_:
+                                    # two ports write one word in one cycle: undefined from here
+                                    memmodel[id(live[ti])][1] = True
+                                w_.add(a['addr'])
                                 model[(pi, ti)][a['addr']] = val(a)
-                        got = dict(sim.inspect_mem(live[ti]))
-                        if got != model[(pi, ti)]:
-                            return Violation('target_value', 'memory_mismatch',
-                                             {'program': pi, 'target': ti, 'cycle': ci,
-                                              'expected': model[(pi, ti)], 'got': got,
-                                              'preds': cyc['p']}, tags)
+            for mid, (content, tainted, (pi, ti, mobj)) in sorted(memmodel.items(),
+                                                                 key=lambda kv: kv[1][2][:2]):
+                if tainted:
+                    continue
+                got = dict(sim.inspect_mem(mobj))
+                if got != content:
+                    return Violation('target_value', 'memory_mismatch',
+                                     {'program': pi, 'target': ti, 'cycle': ci,
+                                      'expected': content, 'got': got, 'preds': cyc['p']},
+                                     ['target:mem'])
         res.probes.hit('blocks_simulated')
     res.shape = hashlib.sha1(repr([_shape(p['tree']) for p in case['programs']]).encode()).hexdigest()[:12]
     res.sched = hashlib.sha1(repr([(p['block'], p['defaults'] is not None, p['fault'])
